@@ -236,6 +236,14 @@ theorem bridge_truncInitialParams (xs : List ℝ) :
     truncInitialParams xs = (mean xs, Real.sqrt (popVar xs)) := by
   simp [truncInitialParams, npMean_eq, npStd_eq]
 
+/-- `v` lies in the box `b` (`bounds=` of `fmin_slsqp`: one `(lower, upper)` pair per variable). -/
+def InBox (b : List (ℝ × ℝ)) (v : List ℝ) : Prop := List.Forall₂ (fun r x => r.1 ≤ x ∧ x ≤ r.2) b v
+
+theorem inBox_truncBounds (mn mx loc scale : ℝ) :
+    InBox (truncBounds mn mx) [loc, scale]
+      ↔ (mn ≤ loc ∧ loc ≤ mx) ∧ (0 ≤ scale ∧ scale ≤ (mx - mn) ^ 2) := by
+  simp [InBox, bridge_truncBounds]
+
 /-! ### the kernel estimate is a density (non-negativity) -/
 open CopVerif.Model
 
